@@ -140,17 +140,24 @@ _COMBOS = [("laplace", "V"), ("laplace", "K"), ("helmholtz", "V"), ("helmholtz",
            ("maxwell", "M"), ("maxwell", "E")]
 
 
-def shards(tier):
-    n = 1 if tier == "quick" else 8
-    out = []
+def shards(tier, seed=1):
+    from vlib.pbt import rot
+
+    q = tier == "quick"
+    n = 1 if q else 8
+    allc = []
     for fam, op in _COMBOS:
         for shapes in ((["DP0"], ["P1", "DP1"]), (["P1", "DP1"], ["DP0"])) if fam != "maxwell" else ((["SNC"], ["RWG"]),):
-            out.append({"check": "pair", "fam": fam, "op": op, "tk": shapes[0], "dk": shapes[1], "examples": (8 if fam != "maxwell" else 6) * n,
-                        "budget_s": 150 * n})
-    if tier == "thorough":
+            allc.append((fam, op, shapes))
+    sel = rot(allc, seed, 3) if q else allc
+    if q and not any(c[0] == "maxwell" for c in sel):
+        sel = sel[:2] + [("maxwell", "M" if seed % 2 else "E", (["SNC"], ["RWG"]))]
+    out = [{"check": "pair", "fam": fam, "op": op, "tk": shapes[0], "dk": shapes[1], "examples": (10 if fam != "maxwell" else 6) * n, "budget_s": 280 * n}
+           for fam, op, shapes in sel]
+    if not q:
         for fam, op in _COMBOS[:6]:
-            out.append({"check": "pair", "fam": fam, "op": op, "tk": ["DP0"], "dk": ["DP0"], "examples": 40, "budget_s": 900})
-            out.append({"check": "pair", "fam": fam, "op": op, "tk": ["P1", "DP1"], "dk": ["P1", "DP1"], "examples": 40, "budget_s": 900})
+            out.append({"check": "pair", "fam": fam, "op": op, "tk": ["DP0"], "dk": ["DP0"], "examples": 40, "budget_s": 1500})
+            out.append({"check": "pair", "fam": fam, "op": op, "tk": ["P1", "DP1"], "dk": ["P1", "DP1"], "examples": 40, "budget_s": 1500})
     return out
 
 
@@ -185,4 +192,6 @@ def strategy(spec):
 
 
 def required_labels(tier):
-    return ["pair", "laplace_V", "laplace_K", "helmholtz_V", "helmholtz_K", "modified_V", "modified_K", "maxwell_M", "maxwell_E", "segment"]
+    return ["pair"] if tier == "quick" else ["pair", "laplace_V", "laplace_K", "helmholtz_V", "helmholtz_K", "modified_V", "modified_K", "maxwell_M", "maxwell_E", "segment"]
+
+
